@@ -97,4 +97,30 @@ def encParse (r : Except ParseFail (List Instruction)) : String :=
   | .ok is => "OK " ++ toString is.length ++ " " ++ ";".intercalate (is.map encInstr)
   | .error e => "ERR " ++ encPErr e.kind ++ " " ++ encMeta e.mi
 
+/-- sorted `hK=hV,…` (hash-map observables are sorted on both sides) -/
+def encVars (m : List (Str × Str)) : String :=
+  let items := m.map fun (k, v) => encStr k ++ "=" ++ encStr v
+  let sorted := items.toArray.qsort (· < ·) |>.toList
+  if sorted.isEmpty then "-" else ",".intercalate sorted
+
+def decVars (t : String) : Option (List (Str × Str)) :=
+  if t = "-" then some [] else
+    (t.splitOn ",").mapM fun kv =>
+      match kv.splitOn "=" with
+      | [k, v] => do pure ((← decStr k), (← decStr v))
+      | _ => none
+
+def decResult (t : String) : Option CmdResult :=
+  match t.splitOn "/" with
+  | ["C", v] => (decOpt v).map .continue
+  | ["GL", v, l] => do pure (.goTo (← decOpt v) (.label (← decStr l)))
+  | ["GN", v, n] => do pure (.goTo (← decOpt v) (.line (← n.toNat?)))
+  | ["E", m] => (decStr m).map .error
+  | ["X", m] => (decStr m).map .crash
+  | ["Q", v] => (decOpt v).map .exit
+  | _ => none
+
+def decQueue (t : String) : Option (List CmdResult) :=
+  if t = "-" then some [] else (t.splitOn ",").mapM decResult
+
 end Duck.Wire
